@@ -31,7 +31,7 @@ func rootOf(f *Func) *Func {
 
 func runC10(c *Ctx) {
 	w := c.W
-	r1 := c.Rule("R1", "who-may-delete: deletion call sites and the callers of the deletion functions are the known, justified ones", 9)
+	r1 := c.Rule("R1", "who-may-delete: deletion call sites and the callers of the deletion functions are the known, justified ones", 8)
 	delFuncs := []string{kNRBrbNewRoot, kNRBrbAdded, kNRBrbUpdated, kNRBremoveNodes, kTLRollback, kTxDelValues, kTxDelObsolete}
 	{
 		got := map[string]bool{}
